@@ -10,10 +10,11 @@ Record killring := mkKr {
   kr_index : nat;
   kr_last : kr_action;
   kr_killing : bool;
+  kr_newest : nat;          (* slot of the most recent kill: yank-pop rotates kr_index only (repair of K1) *)
 }.
-Definition kr_new (size : nat) : killring := mkKr [] size 0 KAOther false.
+Definition kr_new (size : nat) : killring := mkKr [] size 0 KAOther false 0.
 Definition kr_reset (k : killring) : killring :=
-  mkKr (kr_slots k) (kr_cap k) (kr_index k) KAOther (kr_killing k).
+  mkKr (kr_slots k) (kr_cap k) (kr_index k) KAOther (kr_killing k) (kr_newest k).
 
 Fixpoint list_set {A} (l : list A) (i : nat) (x : A) : list A :=
   match l, i with
@@ -31,23 +32,24 @@ Definition kr_kill (k : killring) (text : str) (m : kr_mode) : res killring :=
          | None => Panic
          | Some s =>
            let s' := match m with KAppend => s ++ text | KPrepend => text ++ s end in
-           Ok (mkKr (list_set (kr_slots k) (kr_index k) s') (kr_cap k) (kr_index k) KAKill (kr_killing k))
+           Ok (mkKr (list_set (kr_slots k) (kr_index k) s') (kr_cap k) (kr_index k) KAKill (kr_killing k) (kr_newest k))
          end
   | _ =>
-    if Nat.eqb (kr_cap k) 0 then Ok (mkKr (kr_slots k) (kr_cap k) (kr_index k) KAKill (kr_killing k))
+    if Nat.eqb (kr_cap k) 0 then Ok (mkKr (kr_slots k) (kr_cap k) (kr_index k) KAKill (kr_killing k) (kr_newest k))
     else
-      let idx := if Nat.eqb (kr_index k) (kr_cap k - 1) then 0
-                 else if negb (Nat.eqb (length (kr_slots k)) 0) then S (kr_index k) else kr_index k in
+      (* self.index = self.newest; then advance *)
+      let idx := if Nat.eqb (kr_newest k) (kr_cap k - 1) then 0
+                 else if negb (Nat.eqb (length (kr_slots k)) 0) then S (kr_newest k) else kr_newest k in
       if Nat.eqb idx (length (kr_slots k)) then
-        Ok (mkKr (kr_slots k ++ [text]) (kr_cap k) idx KAKill (kr_killing k))
+        Ok (mkKr (kr_slots k ++ [text]) (kr_cap k) idx KAKill (kr_killing k) idx)
       else if Nat.ltb idx (length (kr_slots k)) then
-        Ok (mkKr (list_set (kr_slots k) idx text) (kr_cap k) idx KAKill (kr_killing k))
+        Ok (mkKr (list_set (kr_slots k) idx text) (kr_cap k) idx KAKill (kr_killing k) idx)
       else Panic
   end.
 
 Definition kr_yank (k : killring) : killring * option str :=
   match nth_error (kr_slots k) (kr_index k) with
-  | Some s => (mkKr (kr_slots k) (kr_cap k) (kr_index k) (KAYank (blen s)) (kr_killing k), Some s)
+  | Some s => (mkKr (kr_slots k) (kr_cap k) (kr_index k) (KAYank (blen s)) (kr_killing k) (kr_newest k), Some s)
   | None => (k, None)        (* empty ring (index is 0 then) *)
   end.
 
@@ -59,7 +61,7 @@ Definition kr_yank_pop (k : killring) : killring * option (nat * str) :=
     | _ =>
       let idx := if Nat.eqb (kr_index k) 0 then length (kr_slots k) - 1 else kr_index k - 1 in
       match nth_error (kr_slots k) idx with
-      | Some s => (mkKr (kr_slots k) (kr_cap k) idx (KAYank (blen s)) (kr_killing k), Some (size, s))
+      | Some s => (mkKr (kr_slots k) (kr_cap k) idx (KAYank (blen s)) (kr_killing k) (kr_newest k), Some (size, s))
       | None => (k, None)
       end
     end
@@ -69,8 +71,8 @@ Definition kr_yank_pop (k : killring) : killring * option (nat * str) :=
 (* the KillRing as DeleteListener *)
 Definition kr_notify (k : killring) (e : event) : res killring :=
   match e with
-  | EStartKill => Ok (mkKr (kr_slots k) (kr_cap k) (kr_index k) (kr_last k) true)
-  | EStopKill => Ok (mkKr (kr_slots k) (kr_cap k) (kr_index k) (kr_last k) false)
+  | EStartKill => Ok (mkKr (kr_slots k) (kr_cap k) (kr_index k) (kr_last k) true (kr_newest k))
+  | EStopKill => Ok (mkKr (kr_slots k) (kr_cap k) (kr_index k) (kr_last k) false (kr_newest k))
   | EDelete _ s d =>
     if kr_killing k then kr_kill k s (match d with DForward => KAppend | DBackward => KPrepend end)
     else Ok k
